@@ -42,7 +42,9 @@ def main():
             fi = r.get("failing_input")
             obs.append({"obligation": r.get("failed_obligation"), "kind": r.get("obligation_kind"),
                         "failing_input": (f"{fi.get('mode')}: {fi.get('case')}" if fi else None)})
-        verdict = "VIOLATION" if p.returncode == 1 else ("UNDECIDED" if p.returncode == 2 else "OK (missed)")
+        has_line = any(l.startswith("VIOLATION") for l in lines)
+        verdict = ("VIOLATION" if p.returncode == 1 and has_line else "EXIT 1 WITHOUT A VIOLATION LINE (checker defect)" if p.returncode == 1
+                   else "UNDECIDED" if p.returncode == 2 else "OK (missed)")
         by = []
         if any(o["kind"] not in ("unverifiable-body", "unverifiable-unit", "bounded-standin") for o in obs):
             by.append("failed proof obligation")
